@@ -62,7 +62,9 @@ def progress(ctx):
             probs = []
             # (c) loop condition bounds pv
             cond = norm(loop.test)
-            if not re.match(rf'^{pv} (<=|<) (\w+|0xFFFF|65535)$', cond):
+            from ..sym import cmp_sides
+            cs = cmp_sides(loop.test)
+            if not (cs is not None and cs[0] == pv and re.match(r'^(\w+|0xFFFF|65535)$', cs[2])):
                 probs.append(f'loop condition `{cond}` does not bound {pv}')
             # back-edge assignments of pv: must be the last statement of the loop body
             assigns = [s for s in walk_local(loop) if isinstance(s, ast.Assign) and any(dotted(t) == pv for t in s.targets)]
@@ -97,15 +99,14 @@ def progress(ctx):
                 g = il.body[0] if il.body else None
                 guarded = set()
                 if isinstance(g, ast.If) and paths._always_leaves(g.body):
-                    atoms = [norm(a) for a in (g.test.values if isinstance(g.test, ast.BoolOp) and isinstance(g.test.op, ast.Or) else [g.test])]
-                    for a in atoms:
-                        mm = re.match(r'^(\w+) < (\w+)$', a)
-                        if mm and mm.group(2) == pv:
-                            guarded.add(mm.group(1))
-                    for a in atoms:
-                        mm = re.match(r'^(\w+) < (\w+)$', a)
-                        if mm and mm.group(2) in guarded:
-                            guarded.add(mm.group(1))
+                    atoms = [cmp_sides(a) for a in (g.test.values if isinstance(g.test, ast.BoolOp) and isinstance(g.test.op, ast.Or) else [g.test])]
+                    atoms = [a for a in atoms if a is not None and a[1] == '<' and re.match(r'^\w+$', a[0]) and re.match(r'^\w+$', a[2])]
+                    for small, _, big in atoms:
+                        if big == pv:
+                            guarded.add(small)
+                    for small, _, big in atoms:
+                        if big in guarded:
+                            guarded.add(small)
                 if not guarded:
                     probs.append(f'items of {lst} are not checked against the previous start handle ({pv}) before use')
                 if src_list is not None:
